@@ -928,3 +928,93 @@ func oldValueParkedForParent(c *Ctx, f *ssa.Function, st access) (bool, string) 
 	})
 	return ok, how
 }
+
+func init() {
+	register(&Rule{
+		ID: "REF-13",
+		Doc: "Release and clear go together: a Close/DecRef/decRef of the value held by an owning field (Store.footer, collection.stackDirty*/stackClean/lowerLevelSnapshot/latestSnapshot, " +
+			"segmentStack.lowerLevelSnapshot) that the function did not itself acquire gives up the field's own reference, so on every path through the release the field is overwritten " +
+			"(cleared or replaced) - before the release after the value was picked up, or after it before the function returns. A field that still points at the released object lets a second " +
+			"Close release a reference that belongs to someone else (an open snapshot loses its data).",
+		Props: []string{"C02", "C15", "C16"},
+		Floor: 3,
+		Run:   ruleRef13,
+	})
+}
+
+func ruleRef13(c *Ctx) []*Ob {
+	o := newObs(c, "REF-13")
+	own := map[*types.Var]bool{}
+	for _, of := range owningFields {
+		own[c.Field(of.typ, of.field)] = true
+	}
+	for _, f := range c.Funcs {
+		if c.isHarness(f) {
+			continue
+		}
+		fn := c.fname(f)
+		evs := refEvents(c, f)
+		acquired := map[string]bool{}
+		for _, e := range evs {
+			if e.kind == "acq" {
+				acquired[canonKey(e.tok)] = true
+			}
+		}
+		for _, e := range evs {
+			if e.kind != "rel" && e.kind != "defer-rel" {
+				continue
+			}
+			if acquired[canonKey(e.tok)] {
+				continue
+			}
+			// the released value is what an owning field holds
+			var fld *types.Var
+			var base ssa.Value
+			for _, og := range origins(e.tok) {
+				if fv, b := loadedField(og); fv != nil && own[fv] && b != nil && !isFreshAlloc(b) {
+					fld, base = fv, b
+				}
+			}
+			if fld == nil {
+				continue
+			}
+			// the receiver is a release method of the owner itself (segmentStack.decRef releasing its own lowerLevelSnapshot when refs hit zero)
+			isStoreF := func(i ssa.Instruction) bool {
+				st, ok := i.(*ssa.Store)
+				if !ok {
+					return false
+				}
+				fv, b := asFieldAddr(st.Addr)
+				return fv == fld && b != nil && canonKey(b) == canonKey(base)
+			}
+			before := false
+			// a store to the field between the pick-up and the release, on every path
+			before = mustPrecede(f, e.instr, isStoreF, nil)
+			after := true
+			walk(after2(e.instr), walkOpts{noInline: true, visit: func(i ssa.Instruction, t *tracker) bool {
+				if isStoreF(i) {
+					return true
+				}
+				if _, isRet := i.(*ssa.Return); isRet {
+					after = false
+					return true
+				}
+				return false
+			}})
+			ok := before || after
+			why := "the field is overwritten on every path through the release"
+			if !ok {
+				why = "the value of " + fld.Name() + " is released but the field keeps pointing at it on some path: the next Close / replacement releases the same object again - a reference that belongs to an open snapshot or to the next owner"
+			}
+			o.add(fn, "release of "+typeName(base.Type())+"."+fld.Name(), c.instrPos(e.instr), ok, why)
+		}
+	}
+	return o.list
+}
+
+func after2(i ssa.Instruction) point {
+	if _, isDefer := i.(*ssa.Defer); isDefer {
+		return after(i)
+	}
+	return after(i)
+}
